@@ -184,6 +184,45 @@ def check_scenarios(tier):
             continue
         if observe_palette(o) != {a: d[a] for a in T.AA}:
             acc.viol("palette-not-committed", "palette with extra keys: rendering shows %r" % (sorted(observe_palette(o).items())[:6],), case)
+    # objects that were not built from a string: children of the pair swap / charge swap, a backend object built with an explicit
+    # charge pattern, each wrapped or bare - their FIRST palette update is validated like any other, and they render with the default
+    import numpy as _np
+    from localcider.backend.sequence import Sequence as _Seq
+    from localcider.sequenceParameters import SequenceParameters as _SP0
+    makers = {"swapRes-child": lambda: SP(CYCLE).SeqObj.swapRes(0, 1), "swapRes-child-wrapped": lambda: _SP0(SeqObj=SP(CYCLE).SeqObj.swapRes(2, 5)),
+              "explicit-charge-pattern": lambda: _Seq(CYCLE, -1, _np.array(SP(CYCLE).SeqObj.chargePattern, dtype=float)),
+              "full-shuffle-child": lambda: SP(CYCLE).SeqObj.full_shuffle(set(range(len(CYCLE)))),
+              "shuffled-sequence": lambda: SP(CYCLE).get_shuffled_sequence(set(range(len(CYCLE))))}
+    firsts = [("missing-W", {a: "red" for a in T.AA if a != "W"}, False), ("bad-colour", dict({a: "red" for a in T.AA}, K="pink"), False),
+              ("empty", {}, False), ("valid", {a: "olive" for a in T.AA}, True)]
+    for mname, mk in makers.items():
+        for fname, pal, ok in firsts:
+            case = {"kind": "derived-object", "palette": mname, "index": fname}
+            acc.transitions += 2
+            acc.traces += 1
+            try:
+                o = mk()
+            except Exception as e:  # noqa
+                acc.extra.setdefault("context_errors", []).append("%s: %r" % (mname, e))
+                continue
+            seq_ = o.seq if hasattr(o, "seq") else o.get_sequence()
+            try:
+                o.set_HTMLColorResiduePalette(dict(pal))
+                accepted = True
+            except Exception:  # noqa
+                accepted = False
+            if accepted != ok:
+                acc.viol("invalid-palette-accepted" if accepted else "valid-palette-rejected", "first palette update (%s) on a %s object was %s"
+                         % (fname, mname, "accepted" if accepted else "rejected"), case)
+            try:
+                toks = parse_html(o.get_HTMLColorString())
+            except Exception as e:  # noqa
+                acc.viol("html-raises", "rendering a %s object after a %s first update raised %r" % (mname, fname, e), case)
+                continue
+            want = pal if ok else T.DEFAULT_PALETTE
+            if toks is None or "".join(r for r, c, _, _ in toks) != seq_ or any(c != want[r] for r, c, _, _ in toks):
+                acc.viol("palette-not-committed" if ok else "rejected-update-changed-palette", "%s object after a %s first update renders %r"
+                         % (mname, fname, None if toks is None else sorted(set((r, c) for r, c, _, _ in toks))[:5]), case)
     # two handles on one sequence object (a second SequenceParameters built with SeqObj=, and the backend object itself): an update
     # accepted through one handle, then a rejected one through the other - every handle must still render the accepted palette
     from localcider.sequenceParameters import SequenceParameters as _SP
@@ -390,7 +429,7 @@ def render_shard(args):
 
 
 def replay(case):
-    if case.get("kind") in ("reused-dict", "first-object", "extra-keys", "context", "key-order", "two-handles"):
+    if case.get("kind") in ("reused-dict", "first-object", "extra-keys", "context", "key-order", "two-handles", "derived-object"):
         a = check_scenarios("quick")
         return [v for v in a.violations if v["case"].get("palette") == case.get("palette") and v["case"]["kind"] == case["kind"]
                 and v["case"].get("index") == case.get("index") and v["case"].get("order") == case.get("order")
@@ -441,6 +480,11 @@ def run(tier, seed, t0):
         hn = [names[i] for i in hist]
         for chunk in range(0, len(seqs), 400):
             shards.append((full, tier, hn, st, seqs[chunk:chunk + 400]))
+    # very long sequences (hundreds of line blocks): two palette states, lengths around multiples of 50 beyond 256 blocks
+    longs = [(CYCLE * 1400)[:L] for L in ((2551, 12800, 12801, 12851) if tier == "quick" else (2551, 5000, 12800, 12801, 12851, 25650, 51201))]
+    for st, hist in list(seen.items())[:2]:
+        for q in longs:
+            shards.append((full, tier, [names[i] for i in hist], st, [q]))
     acc.merge(core.pmap(render_shard, shards))
     acc.states = len(seen)
     acc.merge(check_scenarios(tier))
@@ -455,7 +499,7 @@ def run(tier, seed, t0):
              "palette entry, exactly one space before residues 0,10,20,.., a <br> before residues 0,50,100,.., stripped markup == "
              "sequence. Scenarios: the caller edits its own dictionary in place after an accepted update (the palette must not follow, the "
              "re-submission must be rejected and change nothing); in a freshly imported package the very first object receives each "
-             "valid palette and an object created afterwards must still render with the default. a dictionary that colours all 20 residues validly and carries extra keys is accepted (extras ignored); two palettes resubmitted with their keys inserted in six other orders render identically; with two handles on one sequence object (second wrapper / backend object) an update accepted through one and rejected through the other leaves every handle on the accepted palette; after analyses, plots and a shuffle on the same object the palette is unchanged. dont-care: upper-case colour names; non-trivial = renders longer than one block of 10" % (
+             "valid palette and an object created afterwards must still render with the default. a dictionary that colours all 20 residues validly and carries extra keys is accepted (extras ignored); objects not built from a string (swap children, explicit charge pattern, shuffles) validate their first update and render with the default; sequences of 2551..12851 residues (thorough 51201); two palettes resubmitted with their keys inserted in six other orders render identically; with two handles on one sequence object (second wrapper / backend object) an update accepted through one and rejected through the other leaves every handle on the accepted palette; after analyses, plots and a shuffle on the same object the palette is unchanged. dont-care: upper-case colour names; non-trivial = renders longer than one block of 10" % (
                  len(ops), "all" if full else "3", ", None, 5" if full else "", "1..120" if full else "{1,9,10,11,20,49,50,51,60,99,100,101,120}"),
         bounds={"palette_ops": len(ops), "render_inputs_per_state": len(seqs), "depth": "fixpoint"},
         assumptions=["the palette is observed through rendering only (no attribute reads)"])
